@@ -1,0 +1,82 @@
+//go:build verif
+
+package fusemanager
+
+// Verification hooks (property C17 of /verif). Compiled only with -tags verif.
+
+import (
+	"encoding/json"
+
+	bolt "go.etcd.io/bbolt"
+
+	"github.com/containerd/stargz-snapshotter/service"
+	"github.com/containerd/stargz-snapshotter/snapshot"
+)
+
+// VerifFSFactory, when set, replaces the result of service.NewFileSystem in Init.
+// It receives the root and config the server was about to build the filesystem from
+// and the real result; it returns what Init continues with.
+var verifFSFactory func(root string, cfg *Config, fs snapshot.FileSystem, err error) (snapshot.FileSystem, error)
+
+// VerifSetFS installs (or, with nil, removes) the filesystem factory override.
+func VerifSetFS(f func(root string, cfg *Config, fs snapshot.FileSystem, err error) (snapshot.FileSystem, error)) {
+	verifFSFactory = f
+}
+
+func verifOverrideFS(fm *Server, fs snapshot.FileSystem, err error) (snapshot.FileSystem, error) {
+	if verifFSFactory == nil {
+		return fs, err
+	}
+	return verifFSFactory(fm.root, fm.config, fs, err)
+}
+
+// VerifRecord is one decoded entry of the fuse-info bucket.
+type VerifRecord struct {
+	Key        string
+	Root       string
+	Mountpoint string
+	Labels     map[string]string
+	Config     service.Config
+}
+
+// VerifDump returns the status, the mountpoint -> filesystem table and the decoded
+// contents of the fuse-info bucket (in bucket iteration order).
+func (fm *Server) VerifDump() (status int32, fsMap map[string]snapshot.FileSystem, records []VerifRecord, storeErr error) {
+	fm.lock.RLock()
+	defer fm.lock.RUnlock()
+	status = fm.status
+	fsMap = map[string]snapshot.FileSystem{}
+	fm.fsMap.Range(func(k, v any) bool {
+		fs, _ := v.(snapshot.FileSystem) // a nil entry is reported as nil, not a panic of the dump
+		fsMap[k.(string)] = fs
+		return true
+	})
+	storeErr = fm.ms.View(func(tx *bolt.Tx) error {
+		bucket := tx.Bucket(fuseInfoBucket)
+		if bucket == nil {
+			return nil
+		}
+		return bucket.ForEach(func(k, v []byte) error {
+			mi := &fuseInfo{}
+			if err := json.Unmarshal(v, mi); err != nil {
+				return err
+			}
+			records = append(records, VerifRecord{Key: string(k), Root: mi.Root, Mountpoint: mi.Mountpoint, Labels: mi.Labels, Config: mi.Config})
+			return nil
+		})
+	})
+	return
+}
+
+// VerifCurFS returns the filesystem built by the latest successful construction (nil if none).
+func (fm *Server) VerifCurFS() snapshot.FileSystem {
+	fm.lock.RLock()
+	defer fm.lock.RUnlock()
+	return fm.curFs
+}
+
+// VerifCrash models the death of the manager process: the store handle is released
+// (the file lock goes away with the process) and the store file is kept.
+func (fm *Server) VerifCrash() error {
+	return fm.ms.Close()
+}
